@@ -566,6 +566,14 @@ def isclose(a, b, rtol=1e-05, atol=1e-08):
     return f(a, b)
 
 
+def ceil(x):
+    import math
+
+    if isinstance(x, ndarray):
+        return x._ew(None, lambda v, _: math.ceil(v))
+    return math.ceil(x)
+
+
 def floor(x):
     import math
 
@@ -610,7 +618,7 @@ def _module():
     m = types.ModuleType("numpy")
     g = globals()
     for name in ("ndarray", "zeros", "array", "asarray", "eye", "stack", "isnan", "mean", "exp", "c_", "arange",
-                 "concatenate", "diff", "isclose", "floor", "abs", "swapaxes", "where", "clip",
+                 "concatenate", "diff", "isclose", "floor", "ceil", "abs", "swapaxes", "where", "clip",
                  "float32", "float64", "int8", "int32", "int64", "bool_", "newaxis", "nan", "inf"):
         setattr(m, name, g[name])
     m.typing = _real.typing  # annotations only
